@@ -94,6 +94,11 @@ func (p *FunctionBuilder) CreateFunction(m *bmodel.MethodEntry) (*gmodel.Functio
 	for i, arg := range additionalArgs {
 		additionalArgsVars[i] = p.createVar(arg, fmt.Sprintf("arg%d", i))
 	}
+	if m.Opts.Style == gmodel.DstVarArg {
+		// In arg style the destination parameter is a pointer whatever the method declares;
+		// hook arguments are adapted to what the variable really is.
+		dstVar.Pointer = true
+	}
 	if m.Opts.Receiver != "" {
 		if srcVar.External {
 			return nil, logger.Errorf("%v: an external package type cannot be a receiver", p.fset.Position(m.Method.Pos()))
